@@ -62,7 +62,8 @@ def run_property(prop, tier):
     if prop == "C18":
         return solver_level("C18", tier, "model_checking", sc.corpus_C18, with_liveness=True)
     if prop == "C19":
-        return solver_level("C19", tier, "model_checking", sc.corpus_C19, with_model=False)
+        from harness import c19
+        return c19.run(tier)
     mods = {"C05": "c05", "C06": "c06", "C07": "c07", "C12": "c12", "C13": "c13", "C14": "c14", "C15": "c15", "C16": "c16", "C17": "c17", "C20": "c20"}
     if prop in mods:
         import importlib
